@@ -50,6 +50,9 @@ type GenOpts struct {
 	// NamedFuncExprNonSimple lets a function expression with a non-simple parameter list have a name (excluded by default:
 	// listed known finding C02-callee-binding-dropped).
 	NamedFuncExprNonSimple bool
+	// ParamDefaultNames lets the name probes use parameter defaults (excluded by default: listed known finding
+	// C02-param-default-name).
+	ParamDefaultNames bool
 	// SurplusArgs lets calls pass more arguments than the (statically known) callee has parameters (limited by default:
 	// listed known finding C02-surplus-args-spill).
 	SurplusArgs bool
